@@ -181,6 +181,12 @@ def cases(tier, seed):
                     for orphan in [False, True] if tier == "thorough" else [False]:
                         out.append({"problem": problem, "prog": prog, "mesh": "base", "ground": ground, "orphan": orphan,
                                     "resol": "elim", "mode": mode, "krylov": "all"})
+    # homogeneous prescribed values (all zero) from a generic start state: linear and Newton-incremental modes
+    for problem in ("elastic", "thermal", "beam"):
+        for prog in [p for p in progs if p.count(">") == 1 and any(a.startswith("d") for a in p.split(">")) and any(a in ("nC", "lD") for a in p.split(">"))]:
+            for mode in MODES[problem]:
+                out.append({"problem": problem, "prog": prog, "mesh": "base", "ground": GROUNDS[problem][0], "orphan": False, "resol": "elim", "mode": mode,
+                            "krylov": "cg", "homog": True})
     out.append({"kind": "solver_set"})
     return out
 
@@ -344,8 +350,22 @@ def _beam_spec(resol, orphan):
 
 def make_spec(case):
     if case["problem"] == "beam":
-        return _beam_spec(case["resol"], case["orphan"])
-    return _grid_spec(case["problem"], case["orphan"], case.get("mesh", "base"))
+        s = _beam_spec(case["resol"], case["orphan"])
+    else:
+        s = _grid_spec(case["problem"], case["orphan"], case.get("mesh", "base"))
+    if case.get("homog"):
+        # every PRESCRIBED value is zero (loads keep their values): in the Newton-incremental mode the increment must bring the
+        # constrained dofs of the generic start state back to zero
+        def zero(v):
+            if callable(v):
+                return lambda x, y, z: 0.0 * x
+            return v * 0.0 if isinstance(v, np.ndarray) else 0.0
+
+        def z(c):
+            return (c[0], c[1], [zero(v) for v in c[2]], c[3]) if c[0] == "dir" else c
+
+        s.atoms = {k: ([z(c) for c in a] if isinstance(a, list) else z(a)) for k, a in s.atoms.items()}
+    return s
 
 
 # ------------------------------------------------------------------------------------------------
